@@ -4,6 +4,7 @@ import (
 	"fmt"
 	"math/rand/v2"
 	"runtime"
+	"strings"
 
 	"github.com/privacybydesign/gabi"
 	"github.com/privacybydesign/gabi/big"
@@ -92,9 +93,10 @@ func c03Oracle(r *mon.Run, family, desc string, accepted bool, secrets []*big.In
 }
 
 func runC03(r *mon.Run) {
-	keyNames := []string{"toy384a", "toy512a", "toy384b"}
+	// "+lm512": the same key declaring the attribute size of the 4096-bit parameter set (keys of different size classes in one list)
+	keyNames := []string{"toy384a", "toy512a", "toy384b", "toy512a+lm512"}
 	if r.Thorough() {
-		keyNames = []string{"toy384a", "toy512a", "toy384b", "toy512z", "fix1024a", "fix2048a"}
+		keyNames = []string{"toy384a", "toy512a", "toy384b", "toy512z", "fix1024a", "fix2048a", "toy512a+lm512", "toy384b+lm512"}
 	}
 	type job struct {
 		n      int
@@ -138,7 +140,11 @@ func runC03(r *mon.Run) {
 		pks := make([]*gabikeys.PublicKey, j.n)
 		creds := make([]*world.Cred, j.n)
 		for i := range keys {
-			keys[i] = world.Fixture(j.keys[i])
+			if strings.HasSuffix(j.keys[i], "+lm512") {
+				keys[i] = world.VariantLm(world.Fixture(strings.TrimSuffix(j.keys[i], "+lm512")), 512)
+			} else {
+				keys[i] = world.Fixture(j.keys[i])
+			}
 			pks[i] = keys[i].PK
 			if j.types&(1<<i) == 0 {
 				c, err := keys[i].SignCred([]*big.Int{secrets[i], bi(int64(100 + i)), randBig(jr, 100)})
